@@ -569,15 +569,35 @@ def do_load(w: World, op: dict):
     """Sequential load.  Returns (outcome, template|None, twin|None, stale, known)."""
     kw = _kw(w, op)
     g = op.get("g")
+    direct = bool(op.get("direct"))   # BaseLoader.load()/load_async() called by the application itself
     if op["mode"] == "s":
         try:
-            out = ("ok", w.env.get_template(op["name"], globals=g, **kw))
+            if direct:
+                lk = w.begin(op["name"], None, kw)
+                try:
+                    t0 = w.loader.load(w.env, op["name"], globals=g, **kw)
+                except BaseException as exc:  # noqa: BLE001
+                    w.end(lk, None, exc)
+                    raise
+                w.end(lk, t0, None)
+                out = ("ok", t0)
+            else:
+                out = ("ok", w.env.get_template(op["name"], globals=g, **kw))
         except Inconclusive:
             raise
         except BaseException as exc:  # noqa: BLE001
             out = canon_exc(exc)
     else:
         async def co():
+            if direct:
+                lk = w.begin(op["name"], None, kw)
+                try:
+                    t0 = await w.loader.load_async(w.env, op["name"], globals=g, **kw)
+                except BaseException as exc:  # noqa: BLE001
+                    w.end(lk, None, exc)
+                    raise
+                w.end(lk, t0, None)
+                return t0
             return await w.env.get_template_async(op["name"], globals=g, **kw)
         out = run_async(w, co(), op)
     lookups = w.take()
@@ -586,7 +606,10 @@ def do_load(w: World, op: dict):
     if _outage_error(w, lookups, out):
         return None, None
     with w.with_clone(stale):
-        tw = canon_call(w.cenv.get_template, op["name"], globals=g, **kw)
+        if direct:
+            tw = canon_call(w.cenv.loader.load, w.cenv, op["name"], globals=g, **kw)
+        else:
+            tw = canon_call(w.cenv.get_template, op["name"], globals=g, **kw)
     if out[0] == "ok":
         if tw[0] != "ok":
             raise Violation("load_mismatch", got="ok", expected=tw, lookups=[l.brief() for l in lookups])
@@ -1173,6 +1196,8 @@ def gen_plan(seed: int, tier: str) -> dict:
             f["g"] = {}
         if nskey and f.get("g") is not None and rng.random() < 0.3:
             f["g"] = {**f["g"], "tenant": rng.choice(TENANTS)}
+        if rng.random() < 0.1:
+            f["direct"] = True
         return f
 
     def mutation():
@@ -1236,9 +1261,11 @@ def gen_plan(seed: int, tier: str) -> dict:
             ops.append({"op": "lr", "id": nid(), **lr_fields()})
         else:
             tasks = []
-            for _ in range(rng.randint(2, 4)):
+            big = rng.random() < 0.06     # a burst of 9-12 overlapping loads (pools, semaphores, limits)
+            for _ in range(rng.randint(9, 12) if big else rng.randint(2, 4)):
                 f = lr_fields()
                 f.pop("mode")
+                f.pop("direct", None)
                 tasks.append({"t": "lr", **f})
             if rng.random() < 0.5:
                 same = rng.choice(names)
